@@ -52,12 +52,10 @@ impl core::fmt::Debug for CoreError { fn fmt(&self, f: &mut core::fmt::Formatter
 pub struct EntryV { pub name: Option<Seq<char>>, pub is_file: bool, pub is_dir: bool, pub path: Seq<char> }
 
 /// std `Path::file_stem` as a function of the file name (library/std/src/path.rs): the name up to the LAST `.`;
-/// the whole name if there is no `.` or the only one is leading.  Left uninterpreted except for `axiom_stem_no_dot`.
+/// the whole name if there is no `.` or the only one is leading.  Left uninterpreted (no axiom: nothing equates it with the name).
 pub uninterp spec fn stem_of(name: Seq<char>) -> Seq<char>;
 /// std `Path::extension`: the part after the last `.` (None where the stem is the whole name)
 pub uninterp spec fn ext_of(name: Seq<char>) -> Option<Seq<char>>;
-pub broadcast axiom fn axiom_stem_no_dot(name: Seq<char>)
-    ensures !name.contains('.') ==> #[trigger] stem_of(name) == name;
 
 /// `std::ffi::OsStr` as handed out by `Path::file_name` / `file_stem` / `extension`, viewed as its text
 #[verifier::external_body]
